@@ -221,6 +221,12 @@ def prove(ctx, prop_module=None, leanchecker=None):
 
 def build_driver(ctx):
     ok, log = lake_build(["iox2driver"])
+    tries = 0
+    while not ok and tries < 4 and os.environ.get("VERIF_DRIVER_RETRY", "1") == "1":
+        # another job may be rewriting a component's source at this very moment: try again shortly
+        time.sleep(30)
+        tries += 1
+        ok, log = lake_build(["iox2driver"])
     if not ok:
         ctx.proof_errors.append(("iox2driver", log[-3000:]))
     return ok
